@@ -1,0 +1,9 @@
+//go:build verif
+
+package textfield
+
+// VerifCursor returns the cursor index and the cached grapheme count of the
+// TextField (runtime verification, build tag verif)
+func (tf *TextField) VerifCursor() (cursor uint, n uint) {
+	return tf.cursor, tf.n
+}
